@@ -495,6 +495,7 @@ def dec_terms(enc):
 
 
 def main():
+    hlib.prior_tasks()      # trees are evaluated in a process in which optimisation tasks have already run
     r = hlib.rng('c10')
     res = {'cases': 0, 'nodes': 0, 'fails': [], 'dist': {}, 'coq': [], 'eps_float_is_1e-10': bool(c.EPSILON == EPS),
            'n_args': dict(c.N_ARGS_FUNCTION)}
@@ -513,7 +514,7 @@ def main():
         sp = random_spec(r, r.choice([3, 3, 4]), n_terms)
         specs.append(('rnd-d%d' % spec_depth(sp), sp))
     # SCALE: deep chains (hundreds of nested nodes: recursion depth, accumulated intermediate results)
-    for d in ((60, 200) if hlib.QUICK else (60, 200, 400)):
+    for d in ((60, 200, 700) if hlib.QUICK else (60, 200, 400, 700)):
         for fam in (['ABS', 'SUM'], ['SQRT', 'MUL'], ['COS', 'SUB']):
             sp = ['T', 0]
             for k in range(d):
